@@ -107,7 +107,9 @@ func c02Exec(c fw.Case) *fw.Result {
 	r := gen.New(c.Seed, "c02")
 	nb := r.Range(12, 60)
 	f := pbfw.GenFile(r, pbfw.GenOpts{MinBlocks: nb, MaxBlocks: nb, MaxGroups: 2, MaxElems: 20})
-	// every block needs at least one element so that its completion is observable
+	if c.Int("noheader") == 1 {
+		f.Header = nil // a resumed stream: the first block is a data block
+	}
 	data, lay := f.Encode(nil)
 	want := f.ExpectAll()
 	procs := int(c.Int("procs"))
@@ -268,7 +270,7 @@ func c02Exec(c fw.Case) *fw.Result {
 	res.Add("overlap_events", int64(overlap))
 	res.SetMax("displacement", int64(maxDisp))
 	res.SetMax("inversions_in_one_run", int64(inv))
-	sig := fmt.Sprintf("procs%d/%s/gmp%d/inv%v/ovl%v", procs, planName, c.Int("gomaxprocs"), inv > 0, overlap > 0)
+	sig := fmt.Sprintf("procs%d/%s/gmp%d/inv%v/ovl%v/hdr%v", procs, planName, c.Int("gomaxprocs"), inv > 0, overlap > 0, f.Header != nil)
 	res.Eval(sig)
 	res.Sample = map[string]any{"blocks": nb, "objects": len(want), "procs": procs, "plan": planName, "gomaxprocs": c.Int("gomaxprocs"),
 		"inversions": inv, "max_displacement": maxDisp, "overlap_blocks": overlap, "completion_order_prefix": trimStr(sb.String(), 80)}
@@ -293,7 +295,7 @@ func c02Cases(tier string, seed uint64) []fw.Case {
 	add := func(v string, n int) {
 		for i := 0; i < n; i++ {
 			cs = append(cs, fw.Case{Kind: "schedule", Variant: v, Seed: gen.Sub(seed, "c02"+v, i/3),
-				P: map[string]int64{"procs": procs[i%len(procs)], "gomaxprocs": gmps[(i/len(procs))%len(gmps)]},
+				P: map[string]int64{"procs": procs[i%len(procs)], "gomaxprocs": gmps[(i/len(procs))%len(gmps)], "noheader": int64(b2i(i%5 == 3))},
 				S: map[string]string{"plan": c02Plans[(i/2)%len(c02Plans)]}})
 		}
 	}
@@ -306,7 +308,7 @@ func init() {
 	fw.Register(&fw.Prop{
 		ID:    "C02",
 		Level: "exploration",
-		Rule: "PRNG files of 12-60 small mixed blocks; decoder counts {1,2,3,4,7,10,11,16,32}; perturbation plans {none, reverse staircase, one slow worker, slow reader, slow consumer, bursty, random, Gosched storm} injected in the reader's Read, the decoders' filter callbacks and the consumer loop; GOMAXPROCS {default,1,2,16}; half the runs under the race detector. " +
+		Rule: "PRNG files of 12-60 small mixed blocks (a fifth of them without header block, i.e. resumed streams); decoder counts {1,2,3,4,7,10,11,16,32}; perturbation plans {none, reverse staircase, one slow worker, slow reader, slow consumer, bursty, random, Gosched storm} injected in the reader's Read, the decoders' filter callbacks and the consumer loop; GOMAXPROCS {default,1,2,16}; half the runs under the race detector. " +
 			"Schedules are sampled, not enumerated. Signature = (decoders, plan, GOMAXPROCS, run had a completion inversion, consumer overlapped a later block's decoding); the evidence also counts distinct block-completion permutations.",
 		Assumptions: []string{
 			"filter callbacks always return true here, so the sequence must equal the unfiltered model sequence",
